@@ -540,6 +540,34 @@ func scenarios(tier string) ([]Scenario, map[string]int) {
 			g.add(Scenario{Family: fam, Conns: [][]Exchange{exs}, Pipelined: pipe})
 		})
 	}
+	// Family D2 (thorough): all sequences of length 2 over a wider 8x8 alphabet (adds Expect: 100-continue, an
+	// implicit HTTP/1.0 close, gzip, 304 with Content-Length, 1xx-then-chunked)
+	if tier == "thorough" {
+		wreq := append(append([]ReqSpec(nil), redReq...),
+			ReqSpec{Method: "OPTIONS", Abs: false, Proto: "1.1", HSet: 7, Framing: "cl", Size: 1, Seg: "lines"},
+			ReqSpec{Method: "DELETE", Abs: true, Proto: "1.0", HSet: 6, Framing: "none", Seg: "one"})
+		wresp := append(append([]RespSpec(nil), redResp...),
+			RespSpec{Status: 200, Framing: "cl", Size: 4097, HSet: 2},
+			RespSpec{Status: 304, Framing: "clhead", Size: 4097},
+			RespSpec{Status: 201, Interim: true, Framing: "chunked", Size: 32769})
+		var walpha []Exchange
+		for _, r := range wreq {
+			for _, p := range wresp {
+				walpha = append(walpha, Exchange{r, p})
+			}
+		}
+		for _, pipe := range []bool{false, true} {
+			fam := "D2_seq_wide"
+			if pipe {
+				fam = "D2_seq_wide_pipelined"
+			}
+			for _, a := range walpha {
+				for _, b := range walpha {
+					g.add(Scenario{Family: fam, Conns: [][]Exchange{{a, b}}, Pipelined: pipe})
+				}
+			}
+		}
+	}
 	// Family G (gzip on a kept-alive connection followed by another exchange; the suspected defect's habitat)
 	for _, hs := range []int{0, 5} {
 		for _, f := range []string{"cl", "chunked"} {
@@ -621,7 +649,7 @@ func scenarios(tier string) ([]Scenario, map[string]int) {
 		case s.Family == "G_gzip_seq":
 			s.AlsoTCP = true
 		case s.Mode != "" || s.Family == "E_large" || s.Family == "H_early_response":
-		case strings.HasPrefix(s.Family, "D_"):
+		case strings.HasPrefix(s.Family, "D"):
 			s.AlsoTCP = i%23 == 0
 		default:
 			s.AlsoTCP = i%11 == 0
